@@ -345,7 +345,9 @@ class FailingSampler:
         self.__dict__.update(_inner=inner, _p=p, _k=k, _passes=0, _log=log)
 
     def __getattr__(self, name):
-        return getattr(self._inner, name)
+        if name.startswith("_"):
+            raise AttributeError(name)  # (also keeps copy / pickle from recursing on a half-built instance)
+        return getattr(self.__dict__["_inner"], name)
 
     def __setattr__(self, name, value):
         setattr(self._inner, name, value)
@@ -443,7 +445,7 @@ def _build_company(w, s, comp, log, main_obj=None):
 
 
 def run_sampler(w, start=None, via="sampler", cap=None, sampler=None, log=None, foreign_epoch=None, company=None, overlap=None,
-                side_fault=None):
+                side_fault=None, ship=False):
     """returns (history, terminated); `sampler`/`log` allow a second pass over the same object.
     company: see gen_company - its own events never enter the history (the shared samplers' log entries made while the company
     runs are cut out again); overlap: [(position, n)] - after `position` items of this iteration a second iterator over the same
@@ -466,6 +468,11 @@ def run_sampler(w, start=None, via="sampler", cap=None, sampler=None, log=None, 
             s = build(w, log, start, side_fault=side_fault)
             if company is not None:
                 comp_obj = _build_company(w, s, company, log)
+        if ship:
+            # the configured sampler object is copied before use (deepcopy goes through the same __reduce_ex__ / __getstate__ /
+            # __setstate__ protocol as pickling into another process; the instrumented peer samplers keep writing to `log`)
+            import copy
+            s = copy.deepcopy(s)
         if foreign_epoch is not None and hasattr(s.main_sampler, "epoch"):
             s.main_sampler.epoch = foreign_epoch  # user code used the sampler before; nothing is announced to us
     else:
